@@ -59,3 +59,20 @@ Theorem C08_map_check_sound : forall V (sem : N -> V -> V -> V -> V -> V) (dflt 
     forall p, In p final ->
       mread dflt loc (mexec sem dflt loc ops m0) p = iexec sem alias ops e0 (alias p).
 Proof. intros V sem dflt. exact (KV.Proofs.AllocProofs.map_check_sound sem dflt). Qed.
+
+(** For the default options the certificate is not needed: SimOps.build's own memory map passes it on every well-formed
+    netlist whose gates are known primitives driving from their first output pin (and that side condition is necessary:
+    a gate of unknown kind leaves its output line without storage, theorem reads_defined_necessary). *)
+From KV Require Import Model.Netlist Model.NetlistWf Model.SimOpsCert.
+From KV Require Proofs.EndToEnd.
+Theorem C08_build_passes_certificate : forall c caps cmin so,
+  wf_netlist c -> comb_acyclic c -> (0 < cmin)%N -> KV.Proofs.EndToEnd.gates_known c ->
+  build c caps cmin false false = Some so ->
+  map_check (so_loc so) (so_alias c so) (so_init so) (so_final so) (so_ops so) = true.
+Proof. exact KV.Proofs.EndToEnd.build_map_check_gates. Qed.
+
+Theorem C08_certificate_needs_reads_defined : forall c caps cmin so,
+  wf_netlist c -> (0 < cmin)%N -> build c caps cmin false false = Some so ->
+  map_check (so_loc so) (so_alias c so) (so_init so) (so_final so) (so_ops so) = true ->
+  KV.Proofs.EndToEnd.reads_defined c.
+Proof. exact KV.Proofs.EndToEnd.reads_defined_necessary. Qed.
